@@ -39,13 +39,15 @@ structure Cfg where
   mintClamp : Bool := false
   /-- params_bet_fee_lt_min.diff: `validateConstraints` requires `Fee < MinAmount` -/
   betFee : Bool := false
-  /-- params_house_validate.diff: `Params.Validate` also calls `validateMaxWithdrawalCount`;
-      `validateHouseParticipationFee` requires `fee ≤ 1` -/
+  /-- params_house_validate.diff, first hunk: `Params.Validate` also calls `validateMaxWithdrawalCount` -/
   house : Bool := false
+  /-- params_house_validate.diff, second hunk (hardening only, not applied as a fix):
+      `validateHouseParticipationFee` requires `fee ≤ 1` -/
+  houseFeeCap : Bool := false
 deriving Repr, Inhabited, DecidableEq
 
 /-- the code with every proposed patch -/
-def Cfg.patched : Cfg := { mintValidate := true, mintClamp := true, betFee := true, house := true }
+def Cfg.patched : Cfg := { mintValidate := true, mintClamp := true, betFee := true, house := true, houseFeeCap := true }
 
 -- ---------------------------------------------------------------------------------------------
 -- x/mint
@@ -152,7 +154,7 @@ namespace HouseParams
 
 /-- `validateHouseParticipationFee` -/
 def feeValid (cfg : Cfg) (h : HouseParams) : Bool :=
-  decide (0 ≤ h.fee.raw) && (!cfg.house || decide (h.fee.raw ≤ PREC))
+  decide (0 ≤ h.fee.raw) && (!cfg.houseFeeCap || decide (h.fee.raw ≤ PREC))
 
 /-- MinDeposit, HouseParticipationFee, MaxWithdrawalCount -/
 def fields (cfg : Cfg) (h : HouseParams) : List Bool :=
@@ -214,6 +216,6 @@ def toCore (b : BetParams) (h : HouseParams) (o : ObParams) : Core.Params :=
 
 /-- validity of core parameters on the tree selected by `cfg` -/
 def coreValid (cfg : Cfg) (p : Core.Params) : Bool :=
-  p.valid && (!cfg.betFee || decide (p.betFee < p.betMin)) && (!cfg.house || decide (p.houseFee.raw ≤ PREC))
+  p.valid && (!cfg.betFee || decide (p.betFee < p.betMin)) && (!cfg.houseFeeCap || decide (p.houseFee.raw ≤ PREC))
 
 end Sge.Params
